@@ -23,6 +23,8 @@ RULE = ("case = an op sequence run on one real store directory (2 datasets): ass
         "batches with an empty URI, re-stored entities with new reference targets), NewContextualStore, restart (Close+NewStore) and "
         "crash (directory image taken while open) at random positions, writes during which the process dies at a verifhook point "
         "(before the id commit / between id and entity commit / after both; StoreEntities, ExecuteTransaction, contextual store), "
+        "contexts as requests get them through the real web handlers (GET /namespaces, @context of plain pages of datasets with "
+        "and without publicNamespaces, JSON-LD pages), "
         "dumps of both namespace maps, both id indexes and the (identifier, id) pairs carried by stored entity versions and "
         "reference keys; "
         "a case is non-trivial when it contains a restart/crash or a contextual-store write or a context read after an assertion; "
@@ -86,7 +88,23 @@ def op_ctxtxn(k, ds, ents, crashpt=None):
     return o
 def op_restart(crash=False): return {"op": "restart", "crash": crash}
 def op_dump(): return {"op": "dump"}
-def mk(ops): return {"dss": DSS, "ops": ops}
+def op_page(ds, changes=False): return {"op": "page", "ds": ds, "txn": changes}
+def op_jsonld(ds): return {"op": "jsonld", "ds": ds}
+def op_namespaces(): return {"op": "namespaces"}
+
+
+def mk(ops, pub=None):
+    c = {"dss": DSS, "ops": ops}
+    if pub:
+        c["pub"] = [{"name": n, "exps": e} for n, e in pub]
+    return c
+
+
+def pub_exps(c, ds):
+    for p in c.get("pub") or []:
+        if p["name"] == ds:
+            return p["exps"]
+    return None
 
 
 def witness_cases():
@@ -121,6 +139,16 @@ def witness_cases():
             op_ctxnew(), op_ctxtxn(0, "b", [ent("ns3:ivy"), ent("ns3:gus", "ns3:knows", "ns3:jo")], 2), op_dump(),
             op_batch("a", [ent("ns3:ivy"), ent("ns3:jo")], False, 0), op_dump(), op_batch("a", [ent("ns3:ivy"), ent("ns3:jo")]),
             op_dump()]),
+        # contexts served to requests are functions of the manager's table: a JSON-LD page (which adds its fixed prefixes
+        # core and rdf to its copy) must not change what /namespaces, later pages or other readers see
+        mk([op_namespaces(), op_jsonld("a"), op_namespaces(), op_page("a"), op_fetch(), op_page("b", True), op_jsonld("b"),
+            op_read(0), op_namespaces(), op_compact("http://a.example/x/e1"), op_jsonld("a"), op_page("a"), op_dump()]),
+        # a dataset declares a namespace nobody has used yet: page before first use, first use through a route that adds
+        # nothing to that dataset, page again - the page's context must show the prefix the manager gave
+        mk([op_page("p"), op_assert("http://pub.example/later#"), op_page("p"), op_page("p", True),
+            op_batch("a", [ent("ns4:x")]), op_page("p"), op_jsonld("p"), op_page("p"), op_restart(), op_page("p"),
+            op_compact("http://pub.example/other/e"), op_page("q"), op_page("p"), op_dump()],
+           pub=[("p", ["http://a.example/x/", "http://pub.example/later#"]), ("q", ["http://pub.example/other/"])]),
         # URI shapes
         mk([op_compact(x) for x in ODD_URIS] + [op_compact(n + l) for n, l in zip(NS_POOL, LOCALS)]
            + [op_restart()] + [op_compact(n + l) for n, l in zip(NS_POOL, LOCALS)] + [op_expand("ns3:"), op_expand("nocolon"),
@@ -156,6 +184,13 @@ def rand_ents(rng, bad_ok=True):
 
 def rand_case(rng, nops, flavour):
     ops = []
+    pub = None
+    pages = list(DSS)
+    if rng.chance(1, 2):
+        pool = list(NS_POOL)
+        rng.shuffle(pool)
+        pub = [("p", pool[:rng.range(1, 2)])]
+        pages.append("p")
     nfetch = 0
     nctx = 0
     for _ in range(nops):
@@ -164,7 +199,15 @@ def rand_case(rng, nops, flavour):
             r = r % 45
         elif flavour == "ids":
             r = 45 + r % 55
-        if r < 12:
+        if r < 12 and rng.chance(1, 3):
+            k = rng.below(4)
+            if k == 0:
+                ops.append(op_jsonld(rng.choice(pages)))
+            elif k == 1:
+                ops.append(op_namespaces())
+            else:
+                ops.append(op_page(rng.choice(pages), rng.chance(1, 3)))
+        elif r < 12:
             ops.append(op_compact(rng.choice(NS_POOL) + rng.choice(LOCALS)))
         elif r < 15:
             ops.append(op_compact(rng.choice(ODD_URIS)))
@@ -210,7 +253,7 @@ def rand_case(rng, nops, flavour):
         else:
             ops.append(op_dump())
     ops.append(op_dump())
-    return mk(ops)
+    return mk(ops, pub)
 
 
 def big_case(n):
@@ -270,8 +313,21 @@ def ss(pairs):
     return vlib.coq_list(["(%s, %s)" % (s2l(a), s2l(b)) for a, b in pairs])
 
 
-def out_term(o):
+def out_term(o, op=None, c=None):
     k = o["k"]
+    if k == "ctx" and op is not None and op["op"] == "page" and pub_exps(c, op["ds"]) is not None:
+        # GetContext(publicNamespaces) is built by walking the declared expansions in order
+        m = o.get("m") or []
+        done, pairs = set(), []
+        for e in pub_exps(c, op["ds"]):
+            for pe in m:
+                if pe[1] == e and pe[0] not in done:
+                    done.add(pe[0])
+                    pairs.append(pe)
+        pairs += [pe for pe in m if pe[0] not in done]
+        return "HONs (OCtx %s)" % ss(pairs)
+    if k == "none":
+        return "HONs ONone"
     if k == "str":
         return "HONs (OStr %s)" % s2l(o.get("s", ""))
     if k == "err":
@@ -302,7 +358,7 @@ def ent_term(e):
     return "(%s, %s)" % (s2l(e["id"]), ("Some (%s, %s)" % (s2l(e["p"]), s2l(e["t"]))) if e["ref"] else "None")
 
 
-def op_term(op):
+def op_term(op, c=None):
     k = op["op"]
     if k == "assert":
         return "HNs (NAssert %s)" % s2l(op["s"])
@@ -316,6 +372,13 @@ def op_term(op):
         return "HNs (NGetPrefix %s)" % s2l(op["s"])
     if k == "fetch":
         return "HNs NFetch"
+    if k == "namespaces":
+        return "HNs NCtxAll"
+    if k == "jsonld":
+        return "HNs NJsonLD"
+    if k == "page":
+        exps = pub_exps(c, op["ds"]) if c is not None else None
+        return "HNs NCtxAll" if exps is None else "HNs (NDsCtx %s)" % vlib.coq_list([s2l(e) for e in exps])
     if k == "read":
         return "HNs (NRead %d)" % op["h"]
     if k == "batch" and op.get("crashpt") is not None:
@@ -344,10 +407,10 @@ def term(c, o):
     if o.get("outcome") != "ok":
         outs = []
     return ("({| c_dss := %s; c_ops := %s; c_conc := %s; o_outs := %s; o_conc := %d |})%%N" % (
-        vlib.coq_list([s2l(d) for d in c["dss"]]),
-        vlib.coq_list(["\n   " + op_term(op) for op in c["ops"]]),
+        vlib.coq_list([s2l(d) for d in c["dss"]] + [s2l(p["name"]) for p in (c.get("pub") or [])]),
+        vlib.coq_list(["\n   " + op_term(op, c) for op in c["ops"]]),
         vlib.coq_bool(c.get("conc") is not None),
-        vlib.coq_list(["\n   " + out_term(x) for x in outs]),
+        vlib.coq_list(["\n   " + out_term(x, op, c) for x, op in zip(outs, c["ops"])]),
         CONC.get(o.get("conc", ""), 9)))
 
 
@@ -375,9 +438,13 @@ def attribute(c, o):
     if "discarded" in ocs:
         return "F13b"
     # F13c: ids handed out by an acknowledged contextual-store transaction are not durable
-    died = any(op.get("crashpt") is not None for op in c["ops"])
-    ctx_ok = any(op["op"] == "ctxtxn" and op.get("crashpt") is None and x.get("oc") == "ok" for op, x in zip(c["ops"], outs))
-    if ctx_ok and not died:
+    # (also when the process dies after the contextual store's entity commit: its id "commit" committed nothing);
+    # deaths inside writes of the main store are never excused by it
+    died_main = any(op.get("crashpt") is not None and op["op"] != "ctxtxn" for op in c["ops"])
+    ctx_ok = any(op["op"] == "ctxtxn" and ((op.get("crashpt") is None and x.get("oc") == "ok")
+                                           or (op.get("crashpt") is not None and op["crashpt"] >= 2 and x.get("oc") == "crashed"))
+                 for op, x in zip(c["ops"], outs))
+    if ctx_ok and not died_main:
         return "F13c"
     return None
 
@@ -392,7 +459,7 @@ def classify(c, o):
     kinds = [op["op"] for op in c["ops"]]
     if "restart" in kinds or "ctxtxn" in kinds or any(op.get("crashpt") is not None for op in c["ops"]):
         return "history"
-    if "read" in kinds and ("compact" in kinds or "assert" in kinds):
+    if ("read" in kinds or "page" in kinds or "namespaces" in kinds) and ("compact" in kinds or "assert" in kinds or "jsonld" in kinds):
         return "snapshot"
     return None
 
@@ -402,7 +469,7 @@ def tags(c, o):
     if c.get("conc"):
         return [("burst=" if c["conc"].get("rounds") else "concurrent=") + (o.get("conc") or "?")]
     kinds = [op["op"] for op in c["ops"]]
-    for k in ("restart", "ctxtxn", "read", "batch", "compact", "nsid"):
+    for k in ("restart", "ctxtxn", "read", "batch", "compact", "nsid", "page", "jsonld", "namespaces"):
         if k in kinds:
             t.append("has-" + k)
     if any(op["op"] == "restart" and op.get("crash") for op in c["ops"]):
